@@ -14,7 +14,7 @@ cd "$HERE" || exit 2
 WORK="$OUT.work"
 rm -rf "$WORK"; mkdir -p "$WORK/corpus" "$WORK/artifacts" "$OUT"
 cargo +nightly fuzz build --fuzz-dir . -s none "$T" >"$WORK/build.log" 2>&1 || { tail -5 "$WORK/build.log" >&2; echo "FUZZ build failed" ; exit 2; }
-kind=pool; [ "$T" = "farm_custody_rewards" ] && kind=farm
+kind=pool; [ "$T" = "farm_history" ] && kind=farm
 "$ROOT/harness/target/release/dexcheck" dump-corpus $kind 300 "$WORK/corpus" "$SEED" || exit 2
 BIN="$HERE/target/x86_64-unknown-linux-gnu/release/$T"
 JOBS=${VERIF_FUZZ_JOBS:-14}
